@@ -195,9 +195,9 @@ def cases(tier):
         yield {"labels": [f"k1={kname(k1)}", f"k2={kname(k2)}", "form=ref+inline", "req=00", "name=itemCount", "sibling=item_count"],
                "payload": {"mode": "pair", "k1": k1, "k2": k2, "form": "ref+inline", "req": [False, False], "default": "none", "pname": "itemCount",
                            "collide": "item_count"}}
-    for shape in ("chain3", "diamond", "disjoint3", "selfref-chain"):
+    for shape in ("chain3", "diamond", "disjoint3", "selfref-chain", "single-ref+own-properties", "single-ref+required-only", "single-ref+closed", "single-ref+member-requires-inherited"):
         names = {"chain3": ["Base", "Mid", "M"], "diamond": ["Base", "Left", "Right", "M"], "disjoint3": ["P1", "P2", "P3", "M"],
-                 "selfref-chain": ["Base", "Mid", "M"]}[shape]
+                 "selfref-chain": ["Base", "Mid", "M"]}.get(shape, ["Base", "M", "User"])
         for order in itertools.permutations(names):
             if tier == "quick" and shape == "diamond" and order[0] not in ("M", "Base"):
                 continue
@@ -374,6 +374,19 @@ def _shape(p):
                  "M": {"allOf": [ref("Left"), ref("Right")]}}
         expect = {"id": ("int", True), "v": ("int", False), "l": ("str", False), "r": ("str", True)}
         inst = {"id": 1, "v": 3, "l": "a", "r": "b"}
+    elif shape.startswith("single-ref+"):
+        # an allOf with ONE reference member whose schema adds something of its own next to the allOf keyword
+        base = {"type": "object", "required": ["id"], "properties": {"id": {"type": "integer"}, "label": {"type": "string"}}}
+        own = {"single-ref+own-properties": {"properties": {"own": {"type": "boolean"}}, "required": ["own"]},
+               "single-ref+required-only": {"required": ["label"]}, "single-ref+closed": {"additionalProperties": False},
+               "single-ref+member-requires-inherited": {}}[shape]
+        members = [ref("Base")] + ([{"required": ["label"]}, {"type": "object", "properties": {"z": {"type": "integer"}}}] if shape.endswith("inherited") else [])
+        comps = {"Base": base, "M": {"allOf": members, **own}, "User": {"type": "object", "properties": {"m": ref("M"), "b": ref("Base")}}}
+        expect = {"id": ("int", True), "label": ("str", shape in ("single-ref+required-only", "single-ref+member-requires-inherited"))}
+        inst = {"id": 1, "label": "l"}
+        if shape == "single-ref+own-properties":
+            expect["own"] = ("bool", True)
+            inst["own"] = False
     elif shape == "selfref-chain":
         # the root parent refers to itself (property, array, union): the children inherit those properties unchanged
         comps = {"Base": {"type": "object", "required": ["id"], "properties": {"id": {"type": "integer"}, "next": ref("Base"),
